@@ -248,10 +248,10 @@ func c08System(base string) *explore.System {
 
 func C08(t Tier) int {
 	run := report.NewRun("C08", t.Name, "model_checking", "E1+E2")
-	dl := deadline(t, 110*time.Second, 15*time.Minute)
-	depth := map[string]int{"empty": 2, "populated": 3}
+	dl := deadline(t, 150*time.Second, 15*time.Minute)
+	depth := map[string]int{"empty": 3, "populated": 3}
 	if t.Thorough {
-		depth = map[string]int{"empty": 3, "populated": 4}
+		depth = map[string]int{"empty": 4, "populated": 4}
 	}
 	totalStates, totalTrans := 0, int64(0)
 	for _, base := range []string{"empty", "populated"} {
